@@ -262,6 +262,8 @@ class Dispatcher:
     def handle_do(self, conn, specifier, data):
         if not specifier:
             raise ProtocolError('do requests need a specifier!')
+        if ':' not in specifier:
+            raise ProtocolError('do requests need a specifier of the form <module>:<command>!')
         modulename, cmd = specifier.split(':', 1)
         return (COMMANDREPLY, specifier, list(self._execute_command(modulename, cmd, data)))
 
